@@ -104,7 +104,21 @@ def _child_entry(stage, k, target, args, kwargs):
     """Runs in the forked worker."""
     plan = STATE['plan'] or {}
     STATE['child'] = {'stage': stage, 'k': k, 'inner_calls': 0}
-    _emit({'ev': 'begin', 'stage': stage, 'k': k})
+    import numbers
+    info = {}
+    for kk, vv in kwargs.items():
+        if isinstance(vv, numbers.Integral) and not isinstance(vv, bool):
+            info[kk] = int(vv)
+        elif isinstance(vv, str) and len(vv) < 200:
+            info[kk] = vv
+    if 'rng' in kwargs:
+        try:
+            info['seed'] = int(kwargs['rng'].bit_generator.seed_seq.entropy)
+        except Exception:
+            pass
+    if 'parent_node' in kwargs:
+        info['parent_node'] = repr(kwargs['parent_node'])
+    _emit({'ev': 'begin', 'stage': stage, 'k': k, 'info': info})
     d = (plan.get('delay_before') or {}).get(stage, {}).get(k, 0)
     if d:
         time.sleep(d)
